@@ -1,1 +1,2 @@
 pub mod adapter;
+pub mod sim;
